@@ -1,15 +1,23 @@
-"""C04 — exit status and per-file verdict agree with the diagnostics.  DESIGN.md §4.4."""
+"""C04 — exit status and per-file verdict agree with the diagnostics.  DESIGN.md §4.4.
+
+How the rules are decided (robustness round): nothing here looks at the *shape* of ``main`` or of the formatters any
+more.  ``Errors`` is interpreted over every short sequence of ``add`` calls (R-4.1), each formatter is interpreted on
+stub files whose status is a unique sentinel (R-4.1), and ``__main__`` as a whole is interpreted by the analyser's own
+evaluator (sa/xeval.py) in the stub world of sa/mainmodel.py for finite families of command lines over a virtual file
+system whose file contents ask for diagnostics / fatal errors (R-4.2, R-4.3, R-4.5).  The obligations are statements
+about the outcome of those abstract runs: exit status, verdict lines, which files went through the pipeline.
+"""
 from __future__ import annotations
 
 import ast
-import builtins
 import itertools
+import posixpath
+from typing import Dict, List, Optional, Tuple
 
-from ..cfg import cfg_of
-from ..dataflow import definitely_assigned, names_loaded, target_names
-from ..fold import try_fold
-from ..minieval import Evaluator, Obj, Unsupported
-from ..model import AnalysisError, ancestors, parent, text, walk_fn
+from ..mainmodel import Outcome, World, VFS, parse_human, parse_json, plan_of, run_main
+from ..minieval import ClassRef, Obj, Unsupported
+from ..model import AnalysisError, text
+from ..xeval import Raised, XEvaluator, Module
 
 LEVELS = ("Error", "Notice")
 
@@ -19,6 +27,7 @@ def _is_sys_exit(call) -> bool:
 
 
 def _exit_stmt(st):
+    """kept for c15.py (older versions imported it)"""
     if isinstance(st, ast.Expr) and _is_sys_exit(st.value):
         return st.value
     if isinstance(st, ast.Raise) and isinstance(st.exc, ast.Call) and _is_sys_exit(st.exc):
@@ -26,96 +35,61 @@ def _exit_stmt(st):
     return None
 
 
-def status_methods(prog):
-    methods = {}
-    for cname in ("Errors", "Error", "Highlight"):
-        c = prog.cls(cname)
-        for mname, m in c.methods.items():
-            methods[(cname, mname)] = m.node
-    return methods
-
-
+# ------------------------------------------------------------------------------------------------ class Errors
 class ErrorsModel:
-    """The repository's Errors / Error / Highlight classes interpreted by the analyser's evaluator."""
-
-    def __init__(self, prog):
-        from ..facts import catalogue
-        self.prog = prog
-        self.methods = status_methods(prog)
-        self.classes = {n: prog.cls(n).node for n in ("Errors", "Error", "Highlight")}
-        self.globals = {"errors_dict": catalogue(prog)}
-
-    def evaluator(self, **kw) -> Evaluator:
-        ev = Evaluator(self.methods, **kw)
-        ev.classes = self.classes
-
-        def insort(seq, item, *a, **k):
-            # bisect.insort_right through the repository's own __lt__
-            i = len(seq)
-            lo, hi = 0, len(seq)
-            while lo < hi:
-                mid = (lo + hi) // 2
-                if (ev.obj_lt(item, seq[mid]) if isinstance(item, Obj) else item < seq[mid]):
-                    hi = mid
-                else:
-                    lo = mid + 1
-            seq.insert(lo, item)
-
-        ev.globals = dict(self.globals, insort=insort, insort_right=insort)
-        ev.modules = dict(ev.modules, bisect={"insort": insort, "insort_right": insort})
-        return ev
+    """The repository's Errors / Error / Highlight classes interpreted by the analyser's evaluator (free names of
+    errors.py are resolved through that module's own imports and constants)."""
 
     ADD_FORMS = [("inst", "Error"), ("inst", "Notice"), ("name", "Error"), ("name", "Notice"), ("name-default", "Error"),
                  ("append-inst", "Error"), ("append-inst", "Notice"), ("text", "Error"), ("text", "Notice")]
 
+    def __init__(self, prog):
+        self.prog = prog
+        for c in ("Errors", "Error", "Highlight"):
+            prog.cls(c)
+        self.mod = prog.cls("Errors").mod
+
+    def evaluator(self, max_steps=200000) -> XEvaluator:
+        ev = XEvaluator(self.prog, interpreted_classes=("Errors", "Error", "Highlight"), main_mod=self.mod, max_steps=max_steps)
+        w = World.__new__(World)          # only its bisect stand-in is needed
+        w.ev = ev
+        ev.world_modules["bisect"] = Module("bisect", {"insort": w._insort, "insort_right": w._insort,
+                                                       "insort_left": lambda s, x, **k: w._insort(s, x, left=True)}, lenient=False)
+        return ev
+
     def new_errors(self, ev):
         return ev.instantiate("Errors", [], {})
 
-    def add(self, ev, errors, form, level):
-        hl = ev.instantiate("Highlight", [1, 1], {})
-        m_add = self.methods[("Errors", "add")]
+    def add(self, ev, errors, form, level, pos=(1, 1), code="TOO_MANY_LINES"):
+        hl = ev.instantiate("Highlight", list(pos), {})
         if form in ("inst", "append-inst"):
-            err = ev.invoke(self.methods[("Error", "from_name")], [__import__("sa.minieval", fromlist=["ClassRef"]).ClassRef("Error"),
-                                                                   "TOO_MANY_LINES"], {"level": level, "highlights": [hl]})
-            meth = m_add if form == "inst" else self.methods.get(("Errors", "append"), m_add)
-            ev.invoke(meth, [errors, err], {})
+            err = ev.call_value(ev.getattr(ClassRef("Error"), "from_name"), [code], {"level": level, "highlights": [hl]})
+            ev.call_method(errors, "add" if form == "inst" or self.prog.method("Errors", "append") is None else "append", [err], {})
         elif form == "name":
-            ev.invoke(m_add, [errors, "TOO_MANY_LINES"], {"level": level, "highlights": [hl]})
+            ev.call_method(errors, "add", [code], {"level": level, "highlights": [hl]})
         elif form == "name-default":
-            ev.invoke(m_add, [errors, "TOO_MANY_LINES"], {"highlights": [hl]})
+            ev.call_method(errors, "add", [code], {"highlights": [hl]})
         elif form == "text":
-            ev.invoke(m_add, [errors, "CUSTOM", "custom text"], {"level": level, "highlights": [hl]})
+            ev.call_method(errors, "add", ["CUSTOM", "custom text"], {"level": level, "highlights": [hl]})
 
-    def stored_levels(self, errors):
+    def stored_levels(self, ev, errors):
         inner = errors.__dict__.get("_inner")
-        if not isinstance(inner, list):
-            raise Unsupported("Errors no longer keeps its diagnostics in _inner")
-        return [e.level for e in inner]
+        if isinstance(inner, list):
+            return [e.level for e in inner]
+        # the container was renamed / restructured: ask the object itself
+        return [ev.getattr(e, "level") for e in ev.iterate(errors)]
 
     def status(self, ev, errors):
-        return ev.expr(ast.parse("errors.status", mode="eval").body, {"errors": errors})
+        return ev.getattr(errors, "status")
 
 
-def mk_file(model, ev, levels, form="inst"):
-    errors = model.new_errors(ev)
-    for l in levels:
-        model.add(ev, errors, form, l)
-    return Obj("File", errors=errors)
-
-
-FILE_KINDS = ([], ["Notice"], ["Error"], ["Notice", "Error"], ["Notice", "Notice"], ["Error", "Error"])
-
-
-def check(run, prog):
-    main = prog.fn("__main__.py::main")
-    g = cfg_of(main)
-    methods = status_methods(prog)
-
-    # ---- R-4.1 single source of verdict ---------------------------------------
+def rule_status(run, prog):
     run.rule("R-4.1", "class Errors interpreted by the analyser over every sequence of <= 3 add() calls in each "
              "calling form (instance / by name / by name with default level / deprecated append / name+text): status is "
-             "'Error' exactly when a stored diagnostic has level 'Error'; every formatter takes its verdict from .errors.status, "
-             "once per file, unconditionally", floor=3)
+             "'Error' exactly when a stored diagnostic has level 'Error'; every formatter, interpreted on stub files whose "
+             "status is a unique sentinel, prints each file's status exactly once, in file order, whatever the number of "
+             "diagnostics; end to end every analysed file gets one verdict line that is OK iff it has no Error-level diagnostic",
+             floor=3)
     st = prog.method("Errors", "status")
     run.require(st is not None, "anchor vanished: Errors.status")
     model = ErrorsModel(prog)
@@ -124,14 +98,17 @@ def check(run, prog):
     try:
         for k in range(0, 4):
             for forms in itertools.product(ErrorsModel.ADD_FORMS, repeat=k):
-                ev = model.evaluator(max_steps=100000)
-                errors = model.new_errors(ev)
-                for form, level in forms:
-                    model.add(ev, errors, form, level)
-                levels = model.stored_levels(errors)
-                res = model.status(ev, errors)
+                ev = model.evaluator()
+                try:
+                    errors = model.new_errors(ev)
+                    for form, level in forms:
+                        model.add(ev, errors, form, level)
+                    levels = model.stored_levels(ev, errors)
+                    res = model.status(ev, errors)
+                except Raised as r:
+                    levels, res = [], f"exception {r.value!r}"
                 n_eval += 1
-                want = "Error" if "Error" in levels else "OK"
+                want = "Error" if any(l == "Error" for f, l in forms) else "OK"
                 if (res != want or len(levels) != k) and bad is None:
                     bad = ([f"{f}:{l}" for f, l in forms], levels, res, want)
     except Unsupported as e:
@@ -142,224 +119,307 @@ def check(run, prog):
     fmts = prog.subclasses("_formatter")
     run.require(len(fmts) >= 2, "fewer than two formatter classes")
     for c in fmts:
-        m = c.methods.get("__str__")
+        m = c.methods.get("__str__") or prog.method(c.name, "__str__")
         run.require(m is not None, f"{c.key} has no __str__")
-        loops = [n for n in m.node.body if isinstance(n, ast.For) and text(n.iter) == "self.files"]
-        reads = [n for n in walk_fn(m.node) if isinstance(n, ast.Attribute) and n.attr == "status"]
-        ok = len(loops) == 1 and len(reads) >= 1
-        detail = ""
-        for r in reads:
-            if not text(r.value).endswith(".errors"):
-                ok, detail = False, f"status read from {text(r.value)}"
-            # must sit directly in the per-file loop: no inner loop / condition around it
-            depth = []
-            cur = r
-            for a in ancestors(r):
-                if isinstance(a, (ast.For, ast.While, ast.If, ast.IfExp, ast.comprehension, ast.GeneratorExp, ast.ListComp)):
-                    if isinstance(a, ast.If) and cur is a.test:
-                        pass
-                    depth.append(a)
-                if a is m.node:
-                    break
-                cur = a
-            if not (len(depth) == 1 and loops and depth[0] is loops[0]):
-                ok, detail = False, "verdict is conditional or nested (not exactly once per file)"
-        lits = [n for n in walk_fn(m.node) if isinstance(n, ast.Constant) and isinstance(n.value, str)
-                and ("OK" in n.value or "Error!" in n.value or "KO" in n.value)]
-        if lits:
-            ok, detail = False, f"verdict literal {lits[0].value!r} in formatter"
+        ok, detail, n = formatter_verdict_source(prog, c.name)
         run.ob("R-4.1", f"{m.key}::verdict-source", ok,
-               f"formatter verdict not taken from file.errors.status once per file ({detail})", m.node,
-               loops=len(loops), status_reads=len(reads))
+               f"formatter verdict not taken from file.errors.status once per file ({detail})", m.node, evaluations=n)
 
-    # ---- R-4.2 exit status derivation ------------------------------------------------
-    run.rule("R-4.2", "the argument of main's final sys.exit: (a) all names definitely assigned, (b) no loop variable read "
-             "after its loop, (c-e) evaluates to non-zero exactly when some analysed file has an Error-level diagnostic "
-             "(analyser's interpreter over all file lists up to length 3 of 6 file kinds; helpers inlined)", floor=3)
-    finals = [(_exit_stmt(s), s) for s in main.node.body if _exit_stmt(s) is not None]
-    run.require(finals, "anchor vanished: no top-level sys.exit(...) statement in main")
-    exit_call, exit_stmt = finals[-1]
-    run.require(main.node.body[-1] is exit_stmt, "the final statement of main is not the sys.exit call")
-    E = exit_call.args[0] if exit_call.args else ast.Constant(None)
-    free = names_loaded(E) - set(dir(builtins)) - set(main.mod.imports) - set(main.mod.functions) - set(main.mod.classes) \
-        - set(main.mod.assigns)
-    DA = definitely_assigned(g, main.params)
-    nid = g.nid(exit_stmt)
-    run.require(nid is not None, "exit statement not in CFG")
-    unbound = sorted(n for n in free if n not in DA[nid])
-    run.ob("R-4.2", f"{main.key}::exit-arg[unbound]", not unbound,
-           f"name(s) {unbound} may be unbound when the exit status is computed (e.g. empty file selection)",
-           exit_stmt, free_names=sorted(free))
-    loopvars = {}
-    for n in walk_fn(main.node):
-        if isinstance(n, ast.For):
-            for nm in target_names(n.target):
-                loopvars.setdefault(nm, []).append(n)
-    stale = sorted(nm for nm in free if nm in loopvars
-                   and not any(a in loopvars[nm] for a in ancestors(exit_stmt)))
-    run.ob("R-4.2", f"{main.key}::exit-arg[loopvar]", not stale,
-           f"exit status reads loop variable(s) {stale} after the loop: only the last element decides", exit_stmt)
-    # the files collection: the Name passed to the formatter
-    fmt_calls = [n for n in walk_fn(main.node) if isinstance(n, ast.Call) and isinstance(n.func, ast.Name)
-                 and n.func.id == "format"]
-    run.require(len(fmt_calls) == 1 and fmt_calls[0].args and isinstance(fmt_calls[0].args[0], ast.Name),
-                "anchor vanished: format(<files>, ...) call in main")
-    files_name = fmt_calls[0].args[0].id
-    helpers = {n: f.node for n, f in main.mod.functions.items() if n != "main"}
 
-    def lookup(name):
-        # a local bound by exactly one plain assignment whose statement dominates the exit
-        cands = [n for n in walk_fn(main.node) if isinstance(n, ast.Assign) and len(n.targets) == 1
-                 and isinstance(n.targets[0], ast.Name) and n.targets[0].id == name]
-        if len(cands) == 1 and g.nid(cands[0]) is not None and g.dominates(g.nid(cands[0]), nid):
-            return cands[0].value
-        return None
+class FormatterBench:
+    """Interprets one formatter class on stub File objects."""
 
-    witness = None
-    n_eval = 0
-    unsupported = None
+    def __init__(self, prog):
+        self.prog = prog
+        self.world = World(prog)
+        self.ev = self.world.ev
+        self.ev.max_steps = 400000
+
+    def error(self, name="TOO_MANY_LINES", text_=None, level="Error", positions=((1, 1),)):
+        ev = self.ev
+        hls = [ev.instantiate("Highlight", list(p), {}) for p in positions]
+        if text_ is None:
+            return ev.call_value(ev.getattr(ClassRef("Error"), "from_name"), [name], {"level": level, "highlights": hls})
+        return ev.instantiate("Error", [name, text_], {"level": level, "highlights": hls})
+
+    def stub_file(self, path, status, diags):
+        errors = Obj("Errors", status=status, _seq=list(diags))
+        return Obj("File", path=path, basename=posixpath.basename(path), name=posixpath.splitext(posixpath.basename(path))[0],
+                   type=posixpath.splitext(path)[1], errors=errors)
+
+    def real_file(self, path, diags, source=""):
+        ev = self.ev
+        f = ev.construct("File", [path, source], {})
+        for d in diags:
+            ev.call_method(ev.getattr(f, "errors"), "add", [d], {})
+        return f
+
+    def render(self, cname, files, **options) -> str:
+        ev = self.ev
+        fm = ev.instantiate(cname, [files], options)
+        return ev.py_str(fm)
+
+
+def formatter_verdict_source(prog, cname) -> Tuple[bool, str, int]:
+    n = 0
+    try:
+        for nfiles in range(0, 4):
+            for counts in itertools.product((0, 1, 2), repeat=nfiles):
+                for colors in (True, False):
+                    b = FormatterBench(prog)
+                    files = []
+                    for i, k in enumerate(counts):
+                        diags = [b.error(level=("Error", "Notice")[j % 2], positions=((j + 1, 1),)) for j in range(k)]
+                        files.append(b.stub_file(f"dir/file{i}.c", f"#STATUS{i}#", diags))
+                    try:
+                        out = b.render(cname, files, use_colors=colors)
+                    except Raised as r:
+                        return False, f"the formatter raises {r.value!r} on files with {list(counts)} diagnostics", n
+                    n += 1
+                    pos = []
+                    for i in range(nfiles):
+                        c = out.count(f"#STATUS{i}#")
+                        if c != 1:
+                            return False, (f"with {list(counts)} diagnostics per file the status of file {i} is printed {c} time(s): "
+                                           f"the verdict is conditional or nested (not exactly once per file)"), n
+                        pos.append(out.index(f"#STATUS{i}#"))
+                    if pos != sorted(pos):
+                        return False, "the verdicts are not printed in file order", n
+                    for lit in ("OK!", "KO!", "Error!"):
+                        if lit in out:
+                            return False, f"verdict literal {lit!r} printed by the formatter itself", n
+    except Unsupported as e:
+        raise AnalysisError(f"formatter {cname} is outside the evaluable subset: {e}")
+    return True, "", n
+
+
+# ------------------------------------------------------------------------------------------------ abstract runs of main
+FILES = {
+    "clean.c": "int a;\n", "notice.c": "int a; @N\n", "error.h": "@E\n", "mixed.c": "@N then @E\n",
+    "notice2.h": "@N @N\n", "errors2.c": "@E @E\n", "fatal_l.c": "@L\n", "fatal_p.h": "@E @F\n",
+}
+CORE = ("clean.c", "notice.c", "error.h", "mixed.c")
+FATAL = ("fatal_l.c", "fatal_p.h")
+
+
+def want_status(name: str) -> str:
+    return "Error" if "@E" in FILES[posixpath.basename(name)] else "OK"
+
+
+class Runs:
+    def __init__(self, prog):
+        self.prog = prog
+        self.cache: Dict[tuple, Outcome] = {}
+        self.n = 0
+
+    def run(self, names, fmt=None, tree=None, extra=(), ignored=()) -> Outcome:
+        key = (tuple(names), fmt, repr(tree), repr(extra), tuple(ignored))
+        if key not in self.cache:
+            cli = []
+            if names:
+                cli.append(("<positional>", list(names)))
+            if fmt:
+                cli.append(("-f", [fmt]))
+            cli += list(extra)
+            o = run_main(self.prog, tree if tree is not None else dict(FILES), cli, ignored=ignored)
+            self.n += 1
+            if o.unsupported:
+                raise AnalysisError(f"__main__ is outside the evaluable subset: {o.unsupported} (command line {cli})")
+            self.cache[key] = o
+        return self.cache[key]
+
+
+def started(o: Outcome) -> List[str]:
+    return [e[1].__dict__.get("path") for e in o.events("Lexer")]
+
+
+def completed(o: Outcome) -> List[str]:
+    return [e[1].__dict__.get("path") for e in o.events("run") if plan_of(FILES.get(posixpath.basename(e[1].__dict__.get("path") or ""), ""))[1] is None]
+
+
+def reported(o: Outcome, fmt) -> Tuple[List[Tuple[str, str]], List[str]]:
+    if fmt == "json":
+        files, stray, _ = parse_json(o.stdout)
+    else:
+        files, stray = parse_human(o.stdout)
+    return [(posixpath.basename(n or ""), s) for n, s, _ in files], stray
+
+
+def describe(names) -> str:
+    return "[" + ", ".join(names) + "]"
+
+
+def check(run, prog):
+    main = prog.fn("__main__.py::main")
+    rule_status(run, prog)
+    runs = Runs(prog)
+
+    # ---- R-4.2 exit status ---------------------------------------------------------------------------------
+    run.rule("R-4.2", "__main__ interpreted for every sequence (length 0..3, with repetition) of files of the classes clean / "
+             "notice-only / erroneous / mixed named on the command line, plus all pairs of six classes, in both output "
+             "formats and through a directory argument: (a) no local is read before assignment, (b) the exit status does not "
+             "depend on the order of the files, (c) it is non-zero exactly when some file has an Error-level diagnostic, "
+             "(d) it is one value in 1..255 whatever the number of failing files, (e) exactly the selected files go through "
+             "Lexer / Context / registry.run once each and exactly those get a verdict line", floor=3)
+    seqs: List[Tuple[str, ...]] = []
+    for k in range(0, 4):
+        seqs += list(itertools.product(CORE, repeat=k))
+    six = [n for n in FILES if n not in FATAL]
+    seqs += [s for s in itertools.product(six, repeat=2) if s not in seqs]
+    unbound = value = order = same = verdict = None
     fail_values = set()
-    if not unbound and not stale:
-        for k in range(0, 4):
-            for kinds in itertools.product(range(len(FILE_KINDS)), repeat=k):
-                ev = model.evaluator(functions=helpers, lookup=lambda nm: None if nm == files_name else lookup(nm),
-                                     max_steps=200000)
-                try:
-                    files = [mk_file(model, ev, FILE_KINDS[i], "inst" if (j % 2 == 0) else "name") for j, i in enumerate(kinds)]
-                except Unsupported as e:
-                    raise AnalysisError(f"class Errors is outside the evaluable subset: {e}")
-                try:
-                    res = ev.expr(E, {files_name: files})
-                except (Unsupported, TypeError, AttributeError, KeyError, IndexError) as e:
-                    unsupported = f"{type(e).__name__}: {e}"
-                    break
-                n_eval += 1
-                want_fail = any("Error" in FILE_KINDS[i] for i in kinds)
-                got_fail = bool(res) if not isinstance(res, str) else True
-                if got_fail != want_fail and witness is None:
-                    witness = ([FILE_KINDS[i] for i in kinds], res)
-                if want_fail and got_fail:
-                    fail_values.add(res if isinstance(res, (int, bool, str)) else repr(res))
-            if unsupported:
-                break
-        if unsupported:
-            run.ob("R-4.2", f"{main.key}::exit-arg[value]", False,
-                   f"exit expression is not a function of the analysed files' diagnostics that the analyser can evaluate "
-                   f"({unsupported}); expected a quantification over `{files_name}` of .errors.status", exit_stmt)
-        else:
-            numeric = {int(v) for v in fail_values if isinstance(v, (int, bool))}
-            run.ob("R-4.2", f"{main.key}::exit-arg[bounded]", len(numeric) <= 1 and all(0 < v < 256 for v in numeric),
-                   f"the exit status takes the values {sorted(numeric)} for 1..3 failing files: it grows with the number of "
-                   f"failing files, and the operating system keeps only its low 8 bits (256 failing files exit with 0)",
-                   exit_stmt, values=sorted(numeric))
-            run.ob("R-4.2", f"{main.key}::exit-arg[value]", witness is None,
-                   (f"exit status disagrees with the verdicts: files with diagnostic levels {witness[0]} "
-                    f"exit with {witness[1]!r}") if witness else "exit value", exit_stmt, evaluations=n_eval)
-    # the list analysed is the list reported
-    per_file = [n for n in main.node.body if isinstance(n, ast.For) and any(
-        isinstance(c, ast.Call) and text(c.func).endswith("registry.run") for c in ast.walk(n))]
-    run.require(len(per_file) == 1, "anchor vanished: the per-file analysis loop of main")
-    loop = per_file[0]
-    same = isinstance(loop.iter, ast.Name) and loop.iter.id == files_name
-    rebinds = []
-    after = False
-    for s in main.node.body:
-        if s is loop:
-            after = True
-            continue
-        if after:
-            for n in ast.walk(s):
-                if isinstance(n, (ast.Assign, ast.AugAssign)):
-                    ts = n.targets if isinstance(n, ast.Assign) else [n.target]
-                    if any(files_name in target_names(t) for t in ts):
-                        rebinds.append(n)
-                if isinstance(n, ast.Call) and isinstance(n.func, ast.Attribute) and text(n.func.value) == files_name \
-                        and n.func.attr in ("remove", "pop", "clear", "append", "extend", "insert", "sort", "reverse"):
-                    rebinds.append(n)
-    run.ob("R-4.2", f"{main.key}::same-files", same and not rebinds,
-           f"the list analysed ({text(loop.iter)}) is not the list reported ({files_name}) or it is changed in between",
-           loop, rebinds=[text(r) for r in rebinds])
-
-    # ---- R-4.3 fatal path --------------------------------------------------------------
-    run.rule("R-4.3", "MPT: the per-file try has a handler for CParsingError; from its entry every path prints the "
-             "loop's file and then reaches sys.exit(<non-zero constant>); none leaves the handler normally", floor=2)
-    trys = [n for n in ast.walk(loop) if isinstance(n, ast.Try)]
-    run.require(len(trys) == 1, "anchor vanished: the try statement of the per-file loop")
-    tr = trys[0]
-    filevar = target_names(loop.target)
-    bases = {"CParsingError"}
-    todo = ["CParsingError"]
-    while todo:
-        c = todo.pop()
-        if c in prog.classes:
-            for b in prog.classes[c].bases:
-                if b not in bases:
-                    bases.add(b)
-                    todo.append(b)
-    bases |= {"Exception", "BaseException"}
-    covering = []
-    for h in tr.handlers:
-        names = []
-        if h.type is None:
-            names = ["BaseException"]
-        elif isinstance(h.type, ast.Tuple):
-            names = [text(e).split(".")[-1] for e in h.type.elts]
-        else:
-            names = [text(h.type).split(".")[-1]]
-        if any(nm in bases for nm in names):
-            covering.append(h)
-    run.ob("R-4.3", f"{main.key}::handler[CParsingError]", bool(covering),
-           "no except clause of the per-file try covers CParsingError: a fatal parse error ends in a traceback", tr)
-    for h in covering[:1]:
-        hid = g.nid(h)
-        inside = {g.nid(s) for s in ast.walk(h) if g.nid(s) is not None}
-        exits, bad_exits, prints = set(), [], set()
-        for s in ast.walk(h):
-            c = _exit_stmt(s) if isinstance(s, ast.stmt) else None
-            if c is not None:
-                v = try_fold(c.args[0], main.mod, default=None) if c.args else None
-                if isinstance(v, int) and not isinstance(v, bool) and v != 0:
-                    exits.add(g.nid(s))
+    by_multiset: Dict[tuple, set] = {}
+    for names in seqs:
+        for fmt in ((None, "json") if len(names) <= 2 else (None,)):
+            tree = dict(FILES) if names else {"only": {"x.txt": "no C file here"}}
+            o = runs.run(names, fmt, tree=tree if not names else None)
+            if o.crash is not None:
+                if "UnboundLocalError" in o.crash or "NameError" in o.crash:
+                    unbound = unbound or (names, o.crash)
                 else:
-                    bad_exits.append(s)
-            if isinstance(s, ast.Expr) and isinstance(s.value, ast.Call) and text(s.value.func) == "print":
-                if any(isinstance(n, ast.Name) and n.id in filevar for n in ast.walk(s.value)):
-                    prints.add(g.nid(s))
-        escapes = sorted(g.reachable(hid, avoid=exits) - inside - {hid})
-        escapes = [e for e in escapes if g.nodes[e].kind != "rexit"]
-        ok_exit = bool(exits) and not bad_exits and not escapes
-        run.ob("R-4.3", f"{main.key}::handler-exit", ok_exit,
-               "a path leaves the fatal-error handler without sys.exit(<non-zero constant>)"
-               + (f" (exit with {text(bad_exits[0])})" if bad_exits else ""), h,
-               escapes=[repr(g.nodes[e]) for e in escapes[:4]])
-        named = bool(prints) and all(not g.can_reach(hid, e, avoid=prints) for e in exits)
-        run.ob("R-4.3", f"{main.key}::handler-names-file", named,
-               "the fatal-error handler can exit without printing the file it was analysing", h)
+                    value = value or (names, f"the run crashes with {o.crash}")
+                continue
+            want_fail = any(want_status(n) == "Error" for n in names)
+            st = o.status
+            if (st != 0) != want_fail:
+                value = value or (names, f"exit status {st}")
+            if want_fail and st != 0:
+                raw = o.exit_code
+                fail_values.add(int(raw) if isinstance(raw, (int, bool)) else 1)
+            by_multiset.setdefault((tuple(sorted(names)), fmt), set()).add(st)
+            done = completed(o)
+            if done != list(names):
+                same = same or (names, f"files that went through the pipeline: {describe(done)}")
+            rep, stray = reported(o, fmt)
+            if [n for n, _ in rep] != [posixpath.basename(n) for n in names]:
+                same = same or (names, f"files that got a verdict: {describe([n for n, _ in rep])}")
+            elif [s for _, s in rep] != [want_status(n) for n in names]:
+                verdict = verdict or (names, f"verdicts {[s for _, s in rep]}")
+    for (ms, fmt), sts in by_multiset.items():
+        if len({s != 0 for s in sts}) > 1:
+            order = order or (ms, sorted(sts))
+    ex = main.node
+    run.ob("R-4.2", f"{main.key}::exit-arg[unbound]", unbound is None,
+           (f"with the files {describe(unbound[0])} the run dies on an unbound local before the exit status is computed "
+            f"(e.g. empty file selection): {unbound[1]}") if unbound else "no unbound local", ex)
+    run.ob("R-4.2", f"{main.key}::exit-arg[loopvar]", order is None,
+           (f"the exit status depends on the order of the files: the files {describe(order[0])} exit with {order[1]} depending on "
+            f"their order (only the last element decides)") if order else "order independent", ex)
+    numeric = sorted(fail_values)
+    run.ob("R-4.2", f"{main.key}::exit-arg[bounded]", len(numeric) <= 1 and all(0 < v < 256 for v in numeric),
+           f"the exit status takes the values {numeric} for 1..3 failing files: it grows with the number of "
+           f"failing files, and the operating system keeps only its low 8 bits (256 failing files exit with 0)", ex, values=numeric)
+    run.ob("R-4.2", f"{main.key}::exit-arg[value]", value is None,
+           (f"exit status disagrees with the verdicts: the files {describe(value[0])} (diagnostic levels "
+            f"{[plan_of(FILES[n])[0] for n in value[0]]}) give {value[1]}") if value else "exit value", ex, evaluations=runs.n)
+    # through a directory argument / the current directory
+    o = runs.run(("src",), None, tree={"src": {k: v for k, v in FILES.items() if k not in FATAL}})
+    o2 = runs.run((), None, tree={"src": {"clean.c": FILES["clean.c"], "notice.c": FILES["notice.c"]}, "x.c": FILES["clean.c"]})
+    for oo, files, wantfail in ((o, [k for k in FILES if k not in FATAL], True), (o2, ["clean.c", "notice.c", "x.c"], False)):
+        if oo.crash is not None:
+            value = value or ((), oo.crash)
+        if sorted(posixpath.basename(p) for p in completed(oo)) != sorted(files) or sorted(n for n, _ in reported(oo, None)[0]) != sorted(files):
+            same = same or (tuple(files), f"through a directory: analysed {describe(completed(oo))}, reported {describe([n for n, _ in reported(oo, None)[0]])}")
+        if (oo.status != 0) != wantfail:
+            same = same or (tuple(files), f"through a directory: exit status {oo.status}")
+    run.ob("R-4.2", f"{main.key}::same-files", same is None,
+           (f"the list analysed is not the list reported, or it is changed in between: command line {describe(same[0])}: {same[1]}")
+           if same else "analysed == reported", ex)
+    run.ob("R-4.1", f"{main.key}::verdict-per-file", verdict is None,
+           (f"a verdict line disagrees with the file's diagnostics: files {describe(verdict[0])} get {verdict[1]}, expected "
+            f"{[want_status(n) for n in verdict[0]]}") if verdict else "verdict lines", ex)
 
-    # ---- R-4.5 empty selection ------------------------------------------------------------
-    run.rule("R-4.5", "no element of the files list is addressed by position after the selection phase "
-             "(files[-1], files[0]): an empty selection must reach the formatter and the exit", floor=1)
-    subs = [n for n in walk_fn(main.node) if isinstance(n, ast.Subscript) and isinstance(n.value, ast.Name)
-            and n.value.id == files_name and not isinstance(n.slice, ast.Slice)]
+    # ---- R-4.3 fatal path ----------------------------------------------------------------------------------
+    run.rule("R-4.3", "__main__ interpreted for every sequence (length 1..3) over clean / erroneous / fatal-while-lexing / "
+             "fatal-while-parsing files that contains a fatal one: the CParsingError never escapes as a traceback; the exit "
+             "status is non-zero on every such run (immediately or through a flag that survives to the final exit); every "
+             "file whose analysis died is named in the output and never reported OK; files that were not analysed get no verdict",
+             floor=2)
+    pool = ("clean.c", "error.h") + FATAL
+    escape = noexit = unnamed = wrong = None
+    n_f = 0
+    for k in range(1, 4):
+        for names in itertools.product(pool, repeat=k):
+            if not any(n in FATAL for n in names):
+                continue
+            for fmt in ((None, "json") if k <= 2 else (None,)):
+                o = runs.run(names, fmt)
+                n_f += 1
+                if o.crash is not None:
+                    if isinstance(o.crash_value, Obj) and "NorminetteError" in runs_chain(prog, o.crash_value._cls):
+                        escape = escape or (names, o.crash)
+                    else:
+                        escape = escape or (names, f"crash: {o.crash}")
+                    continue
+                if o.status == 0:
+                    noexit = noexit or (names, fmt)
+                begun = started(o)
+                died = [p for p in begun if posixpath.basename(p) in FATAL]
+                alltext = o.stdout + o.stderr
+                for p in died:
+                    if p not in alltext and posixpath.basename(p) not in alltext:
+                        unnamed = unnamed or (names, p)
+                rep, _ = reported(o, fmt)
+                done = [posixpath.basename(p) for p in completed(o)]
+                for nme, status in rep:
+                    if nme in FATAL:
+                        if status == "OK":
+                            wrong = wrong or (names, f"the fatal file {nme} is reported OK")
+                    elif nme not in done:
+                        wrong = wrong or (names, f"{nme} gets a verdict without having been analysed")
+                    elif status != want_status(nme):
+                        wrong = wrong or (names, f"{nme} is reported {status}")
+                for nme in set(n for n, _ in rep):
+                    if nme not in FATAL and [n for n, _ in rep].count(nme) > done.count(nme):
+                        wrong = wrong or (names, f"{nme} gets more verdict lines than it was analysed")
+    run.ob("R-4.3", f"{main.key}::handler[CParsingError]", escape is None,
+           (f"no except clause of the per-file try covers CParsingError: with the files {describe(escape[0])} a fatal parse error "
+            f"ends in a traceback ({escape[1]})") if escape else "covered", ex, evaluations=n_f)
+    run.ob("R-4.3", f"{main.key}::handler-exit", noexit is None,
+           (f"a path leaves the fatal-error handler without a non-zero exit status: the files {describe(noexit[0])}"
+            f"{' (-f json)' if noexit[1] else ''} exit with 0 although a file could not be parsed") if noexit else "non-zero", ex)
+    run.ob("R-4.3", f"{main.key}::handler-names-file", unnamed is None,
+           (f"the fatal-error handler can exit without printing the file it was analysing: files {describe(unnamed[0])}, "
+            f"{unnamed[1]} is never named") if unnamed else "named", ex)
+    run.ob("R-4.3", f"{main.key}::fatal-run-verdicts", wrong is None,
+           (f"after a fatal error the report is wrong: files {describe(wrong[0])}: {wrong[1]}") if wrong else "verdicts", ex)
 
-    def guarded_nonempty(n) -> bool:
-        """under `if files ...:` / `if len(files) ...` (true branch) or an earlier `files and` operand"""
-        from ..facts import conjuncts
-        cur = n
-        for a in ancestors(n):
-            if isinstance(a, ast.BoolOp) and isinstance(a.op, ast.And):
-                idx = next((i for i, v in enumerate(a.values) if any(x is cur for x in ast.walk(v))), None)
-                if idx is not None and any(text(v) in (files_name, f"len({files_name})", f"len({files_name}) > 0") for v in a.values[:idx]):
-                    return True
-            if isinstance(a, ast.If) and any(any(x is n for x in ast.walk(s_)) for s_ in a.body):
-                if any(text(c) in (files_name, f"len({files_name})", f"len({files_name}) > 0", f"{files_name} != []")
-                       for c in conjuncts(a.test)):
-                    return True
-            if isinstance(a, ast.For) and text(a.iter) == files_name:
-                return True
-            cur = a
-        return False
+    # ---- R-4.5 empty selection -------------------------------------------------------------------------------
+    run.rule("R-4.5", "__main__ interpreted on runs that select no file (no C file under the current directory, an empty "
+             "directory argument, only a file with another suffix, everything ignored by git): the run ends cleanly with status 0 "
+             "and an empty report in both formats", floor=1)
+    empties = [
+        ((), {"docs": {"readme.txt": "x"}}, (), ()),
+        ((), {}, (), ()),
+        (("empty",), {"empty": {}, "a.c": "@E"}, (), ()),
+        (("notes.txt",), {"notes.txt": "x", "a.c": "@E"}, (), ()),
+        (("a.c",), {"a.c": "@E"}, (("--use-gitignore", []),), ("a.c",)),
+    ]
+    bad = None
+    for names, tree, extra, ign in empties:
+        for fmt in (None, "json"):
+            o = runs.run(names, fmt, tree=tree, extra=extra, ignored=ign)
+            rep, stray = reported(o, fmt)
+            if o.crash is not None:
+                bad = bad or (names, f"the run crashes: {o.crash}")
+            elif o.status != 0:
+                bad = bad or (names, f"exit status {o.status}")
+            elif rep or started(o):
+                bad = bad or (names, f"files analysed / reported: {started(o)} / {rep}")
+            elif fmt == "json" and parse_json(o.stdout)[2] != 1:
+                bad = bad or (names, f"the JSON report of an empty run is not one JSON document: {o.stdout!r}")
+    run.ob("R-4.5", f"{main.key}::no-positional-files", bad is None,
+           (f"an empty selection does not reach the formatter and a clean exit: command line {describe(bad[0])}: {bad[1]}")
+           if bad else "empty selection", ex)
 
-    subs = [n for n in subs if not guarded_nonempty(n)]
-    run.ob("R-4.5", f"{main.key}::no-positional-files", not subs,
-           f"{files_name}[...] is addressed by position: crashes on an empty selection", subs[0] if subs else main.node)
+
+def runs_chain(prog, cname):
+    out, todo = [], [cname]
+    while todo:
+        c = todo.pop(0)
+        if c in out:
+            continue
+        out.append(c)
+        if c in prog.classes:
+            todo.extend(prog.classes[c].bases)
+    return out
